@@ -88,6 +88,9 @@ type workerProc struct {
 	start  time.Time
 	stderr string
 	done   chan error
+	// progress tracking: the in-flight journal header changes with every case
+	lastKey      [12]byte
+	lastProgress time.Time
 }
 
 type Driver struct {
@@ -122,7 +125,7 @@ func (d *Driver) spawn(id int, resume int) *workerProc {
 	cmd.Stdout = ef
 	cmd.Env = append(os.Environ(), "GOMEMLIMIT=6GiB", "VERIF_WORK_RUN="+d.work,
 		"GORACE=halt_on_error=0 log_path="+filepath.Join(d.work, "race"))
-	w := &workerProc{id: id, cmd: cmd, start: time.Now(), stderr: errPath, done: make(chan error, 1)}
+	w := &workerProc{id: id, cmd: cmd, start: time.Now(), stderr: errPath, done: make(chan error, 1), lastProgress: time.Now()}
 	if err := cmd.Start(); err != nil {
 		w.done <- err
 		return w
@@ -269,6 +272,8 @@ func DriverMain(propID, tier string, seed uint64, replayPath string) int {
 	if nw < 1 {
 		nw = 1
 	}
+	// a single case that does not finish within `stall` is cut and re-run alone under the CPU budget
+	stall := time.Duration(envInt("VERIF_CASE_WATCHDOG_S", map[bool]int{true: 60, false: 240}[tier != "thorough"])) * time.Second
 	watchdog := time.Duration(envInt("VERIF_WATCHDOG_S", map[bool]int{true: 900, false: 10800}[tier != "thorough"])) * time.Second
 
 	// pinned known findings first (each alone in a child).
@@ -293,6 +298,7 @@ func DriverMain(propID, tier string, seed uint64, replayPath string) int {
 
 	procs := map[int]*workerProc{}
 	nextID := 0
+	abort := false
 	for i := 0; i < nw; i++ {
 		procs[nextID] = d.spawn(nextID, -1)
 		nextID++
@@ -312,7 +318,16 @@ func DriverMain(propID, tier string, seed uint64, replayPath string) int {
 				if finished != nil {
 					break
 				}
-				if time.Since(w.start) > watchdog {
+				// per-case stall detection: has the in-flight journal moved?
+				if f, err := os.Open(filepath.Join(d.work, fmt.Sprintf("inflight.%d", w.id))); err == nil {
+					var key [12]byte
+					if n, _ := f.ReadAt(key[:], 0); n == 12 && key != w.lastKey {
+						w.lastKey = key
+						w.lastProgress = time.Now()
+					}
+					f.Close()
+				}
+				if time.Since(w.start) > watchdog || time.Since(w.lastProgress) > stall {
 					w.cmd.Process.Signal(syscall.SIGKILL)
 					<-w.done
 					finished, timeout = w, true
@@ -340,6 +355,17 @@ func DriverMain(propID, tier string, seed uint64, replayPath string) int {
 		}
 		fs, died, cpu, out := d.isolated(kind, input)
 		switch {
+		case died && timeout:
+			d.findings = append(d.findings, Finding{Kind: kind, Input: input, Msg: diedMsg(cpu, out)})
+			// a call that does not return was confirmed: the verdict is known, do not wait for
+			// the other workers to run into the same loop one watchdog period at a time
+			for _, w := range procs {
+				w.cmd.Process.Signal(syscall.SIGKILL)
+				<-w.done
+			}
+			procs = map[int]*workerProc{}
+			d.notes = append(d.notes, "stopped early after a confirmed non-returning call")
+			abort = true
 		case died:
 			d.findings = append(d.findings, Finding{Kind: kind, Input: input, Msg: diedMsg(cpu, out)})
 		case len(fs) > 0:
@@ -350,6 +376,9 @@ func DriverMain(propID, tier string, seed uint64, replayPath string) int {
 			d.inconcl = append(d.inconcl, fmt.Sprintf("worker died in %s (not reproducible in isolation): %s", kind, firstFatal(tail(finished.stderr, 4000))))
 		}
 		d.skips = append(d.skips, fmt.Sprintf("%d:%d", b, idx))
+		if abort {
+			break
+		}
 		if d.deaths <= 30 {
 			procs[nextID] = d.spawn(nextID, b)
 			nextID++
@@ -408,7 +437,7 @@ func DriverMain(propID, tier string, seed uint64, replayPath string) int {
 			distinct[binary.LittleEndian.Uint64(b[i:])] = struct{}{}
 		}
 	}
-	if len(doneBatches) != len(batches) {
+	if len(doneBatches) != len(batches) && !abort {
 		d.inconcl = append(d.inconcl, fmt.Sprintf("only %d of %d batches completed", len(doneBatches), len(batches)))
 	}
 
